@@ -15,7 +15,7 @@ def _both(v, default):
 
 
 def ob(id, desc, bounds, tiers=('quick', 'thorough'), cond_timeout=None, path_timeout=60, twin=True, partitions=None,
-       flags=(), known=None, engine='B', hard_timeout=None):
+       flags=(), known=None, engine='B', hard_timeout=None, expect='hold'):
     """register a harness function as an obligation.
 
     cond_timeout: CrossHair per-condition budget in seconds (number or {'q':..,'t':..})
@@ -32,8 +32,8 @@ def ob(id, desc, bounds, tiers=('quick', 'thorough'), cond_timeout=None, path_ti
         _REG.setdefault(fn.__module__, []).append({
             'id': id, 'name': fn.__name__, 'module': fn.__module__, 'desc': desc, 'bounds': bounds,
             'tiers': tuple(tiers), 'cond_timeout': _both(cond_timeout, {'q': 60, 't': 600}),
-            'path_timeout': path_timeout, 'twin': twin and engine == 'B', 'partitions': parts, 'flags': tuple(flags),
-            'known': known, 'engine': engine, 'hard_timeout': _both(hard_timeout, {'q': 120, 't': 900})})
+            'path_timeout': path_timeout, 'twin': twin and engine == 'B' and expect == 'hold', 'partitions': parts, 'flags': tuple(flags),
+            'known': known, 'engine': engine, 'expect': expect, 'hard_timeout': _both(hard_timeout, {'q': 120, 't': 900})})
         return fn
     return deco
 
